@@ -12,6 +12,7 @@ import time
 from vlib import api
 
 HOME = os.environ.get("VERIF_HOME", "/verif")
+REPO = os.environ.get("VERIF_REPO", "/repo")
 NPROC = int(os.environ.get("VERIF_NPROC", "16"))
 PY = sys.executable
 
@@ -29,7 +30,7 @@ def _last_json(text):
 
 def _run_worker(modname, hname, tier, kind, which, extra, wall):
     env = dict(os.environ)
-    env["PYTHONPATH"] = HOME + ":/repo/src"
+    env["PYTHONPATH"] = HOME + ":" + REPO + "/src"
     cmd = [PY, "-m", "vlib.worker", modname, hname, tier, kind, str(which), json.dumps(extra)]
     t0 = time.time()
     try:
@@ -48,7 +49,7 @@ def _run_worker(modname, hname, tier, kind, which, extra, wall):
 
 def _run_custom(modname, cname, tier, wall):
     env = dict(os.environ)
-    env["PYTHONPATH"] = HOME + ":/repo/src"
+    env["PYTHONPATH"] = HOME + ":" + REPO + "/src"
     env["VERIF_MODE"] = "sym"
     env["VERIF_TIER"] = tier
     code = ("import importlib, json, sys; m = importlib.import_module(%r); "
@@ -71,7 +72,7 @@ def _run_custom(modname, cname, tier, wall):
 
 def replay_file(path, mode="real"):
     env = dict(os.environ)
-    env["PYTHONPATH"] = HOME + ":/repo/src"
+    env["PYTHONPATH"] = HOME + ":" + REPO + "/src"
     env["VERIF_MODE"] = mode
     venv_py = PY
     p = subprocess.run([venv_py, "-m", "vlib.replay", path], capture_output=True, text=True,
@@ -117,7 +118,7 @@ def _validate_vectors(modname, tier):
     res = {}
     for mode in ("real", "sym"):
         env = dict(os.environ)
-        env["PYTHONPATH"] = HOME + ":/repo/src"
+        env["PYTHONPATH"] = HOME + ":" + REPO + "/src"
         env["VERIF_MODE"] = mode
         env["VERIF_TIER"] = tier
         p = subprocess.run([PY, "-c", code], capture_output=True, text=True, timeout=900, env=env, cwd=HOME)
